@@ -296,9 +296,17 @@ Definition is_default_pc (allowed : list Z) (e : Z * msg) : bool :=
    - its timed messages (set_tempo / end_of_track aside) are, as a multiset, the explicit events of
      the performance on that track plus, possibly, default programs on allowed channels;
    - the message loop pairs the same notes from it as from the model's track *)
+(* a note ends with a note-off of any velocity or a zero-velocity note-on: the same thing to C06 *)
+Definition norm_msg (m : msg) : msg :=
+  match m with
+  | NoteOn ch p v => if v <=? 0 then NoteOff ch p 0 else m
+  | NoteOff ch p _ => NoteOff ch p 0
+  | _ => m
+  end.
+Definition norm_ev (e : Z * msg) : Z * msg := (fst e, norm_msg (snd e)).
 Definition check_save_track (explicit : list (Z * msg)) (allowed : list Z) (model obs : list (Z * msg)) : bool :=
   let oabs := undelta 0 obs in
-  match msub dm_eqb explicit (strip_aux oabs) with
+  match msub dm_eqb (map norm_ev explicit) (map norm_ev (strip_aux oabs)) with
   | Some rest => forallb (is_default_pc allowed) rest
   | None => false
   end
